@@ -6,15 +6,19 @@ package main
 // of segments, and the evidence can show the sequences themselves.
 
 import (
+	"fmt"
 	"go/ast"
 	"strings"
 )
 
 type Segment struct {
-	Kind string   // "path" (entry to a normal exit) | "iter" (one loop iteration) | "pre" (entry to first loop head)
+	Kind string   // "path": entry to a normal exit, loops summarised as loop@pos | "iter": one iteration of the loop at Loop
+	Loop string   // position of the loop an "iter" segment belongs to
+	Exit bool     // the segment ends by leaving the function
 	Syms []string // symbols in execution order
 	End  string   // position of the exit / loop
 	Ret  []Value
+	T    string // final value of the tracked status field ("" when not tracked)
 }
 
 func (s Segment) String() string { return s.Kind + ": " + strings.Join(s.Syms, " ") }
@@ -86,7 +90,7 @@ type seqRule struct {
 	condExpr func(fr *Frame, e ast.Expr, branch bool, ip *Interp, st *State) string
 	noInline func(f *Func) bool
 	relevant func(f *Func) bool
-	cutLoops bool // cut loops of the root function into per-iteration segments
+	cutLoops bool // (unused: every loop is cut into per-iteration segments)
 	maxDepth int
 	trackField string
 	init       kv
@@ -95,14 +99,16 @@ type seqRule struct {
 func (sr *seqRule) segments(root *Func) []Segment {
 	var segs []Segment
 	seen := map[string]bool{}
-	emit := func(kind string, s kv, end string, ret []Value) {
-		syms := strings.Fields(strings.ReplaceAll(s.get("seq"), ",", " "))
-		key := kind + "|" + strings.Join(syms, ",") + "|" + valsKey(ret)
+	// state keys: "seq" symbols of the current straight-line piece; "stk"
+	// stack of enclosing loops "pos~prefix" joined by "|"; "T" tracked status
+	emit := func(kind, loop string, seqStr string, s kv, end string, ret []Value, exit bool) {
+		syms := strings.Fields(strings.ReplaceAll(seqStr, ",", " "))
+		key := kind + "|" + loop + "|" + strings.Join(syms, ",") + "|" + valsKey(ret) + "|" + s.get("T") + fmt.Sprint(exit)
 		if seen[key] {
 			return
 		}
 		seen[key] = true
-		segs = append(segs, Segment{Kind: kind, Syms: syms, End: end, Ret: ret})
+		segs = append(segs, Segment{Kind: kind, Loop: loop, Syms: syms, End: end, Ret: ret, T: s.get("T"), Exit: exit})
 	}
 	app := func(s kv, sym string) kv {
 		if sym == "" {
@@ -114,47 +120,52 @@ func (sr *seqRule) segments(root *Func) []Segment {
 		}
 		return s.set("seq", cur+","+sym)
 	}
+	top := func(s kv) (pos, prefix, rest string) {
+		stk := s.get("stk")
+		if stk == "" {
+			return "", "", ""
+		}
+		i := strings.LastIndex(stk, "|")
+		last := stk[i+1:]
+		if i < 0 {
+			rest = ""
+		} else {
+			rest = stk[:i]
+		}
+		j := strings.Index(last, "~")
+		return last[:j], last[j+1:], rest
+	}
 	tr := &traceRule{c: sr.c, rule: sr.rule, noInline: sr.noInline, maxDepth: sr.maxDepth, relevant: sr.relevant, trackField: sr.trackField}
 	tr.classify = sr.classify
 	tr.step = func(s kv, ev Ev) kv {
-		switch ev.Name {
-		case "__iter":
-			if s.get("in") == "iter" {
-				emit("iter", s, sr.c.P.pos(ev.Node), nil)
-			} else {
-				emit("pre", s, sr.c.P.pos(ev.Node), nil)
+		switch {
+		case strings.HasPrefix(ev.Name, "__iter@"):
+			pos := ev.Name[len("__iter@"):]
+			if tp, _, _ := top(s); tp == pos {
+				emit("iter", pos, s.get("seq"), s, pos, nil, false)
+				return s.set("seq", "")
 			}
-			return kv("").set("in", "iter").set("T", s.get("T"))
-		case "__done":
-			if s.get("in") == "iter" {
-				emit("iter", s, sr.c.P.pos(ev.Node), nil)
-				return kv("").set("in", "after").set("T", s.get("T"))
+			entry := pos + "~" + s.get("seq")
+			if stk := s.get("stk"); stk != "" {
+				entry = stk + "|" + entry
 			}
-			return s
-		}
-		if strings.HasPrefix(ev.Name, "__loop@") {
-			// a loop that is not cut: keep only the symbols of its latest
-			// iteration so that the state space stays finite
-			cur := s.get("seq")
-			if i := strings.Index(cur, ev.Name); i >= 0 {
-				return s.set("seq", cur[:i+len(ev.Name)])
+			return s.set("stk", entry).set("seq", "")
+		case strings.HasPrefix(ev.Name, "__done@"):
+			pos := ev.Name[len("__done@"):]
+			if tp, prefix, rest := top(s); tp == pos {
+				emit("iter", pos, s.get("seq"), s, pos, nil, false)
+				s = s.set("stk", rest).set("seq", prefix)
 			}
+			return app(s, "loop@"+pos)
 		}
 		return app(s, ev.Name)
 	}
 	tr.visit = func(fr *Frame, n ast.Node) string {
-		if li, ok := n.(LoopIter); ok && !(sr.cutLoops && fr.Caller == nil && fr.Loop <= 1) {
-			return "__loop@" + sr.c.P.pos(li.Stmt)
-		}
-		if sr.cutLoops && fr.Caller == nil && fr.Loop <= 1 {
-			switch n.(type) {
-			case LoopIter:
-				return "__iter"
-			case LoopDone:
-				if fr.Loop == 1 {
-					return "__done"
-				}
-			}
+		switch l := n.(type) {
+		case LoopIter:
+			return "__iter@" + sr.c.P.pos(l.Stmt)
+		case LoopDone:
+			return "__done@" + sr.c.P.pos(l.Stmt)
 		}
 		if sr.visit != nil {
 			return sr.visit(fr, n)
@@ -172,11 +183,13 @@ func (sr *seqRule) segments(root *Func) []Segment {
 		}
 	}
 	tr.exit = func(s kv, fr *Frame, ret *ast.ReturnStmt, vals []Value) {
-		kind := "path"
-		if s.get("in") == "iter" {
-			kind = "iter" // return from inside a loop iteration
+		end := sr.c.retPos(fr, ret)
+		if tp, _, _ := top(s); tp != "" {
+			// return from inside a loop iteration
+			emit("iter", tp, s.get("seq"), s, end, vals, true)
+			return
 		}
-		emit(kind, s, sr.c.retPos(fr, ret), vals)
+		emit("path", "", s.get("seq"), s, end, vals, true)
 	}
 	tr.run(root, sr.init)
 	return segs
